@@ -86,6 +86,12 @@ CHECKS = {
         "the printed grammar is accepted again, is identical when no terminal contains '<', and every original nonterminal derives exactly the same (finite) language.",
    note="Trusted: language enumeration in the harness. [decoder] (the ANTLR parser cannot be executed symbolically). Outside: longer terminals, other characters, recursive grammars.",
    design="§3 C11"),
+ "C19": dict(level="other", technique="CrossHair (z3): solver-driven exhaustive enumeration of a bounded command-line scenario space; the real isla.cli.main run in-process, expected exit code from the documented contract + reference semantics",
+   text=BOUNDED + "Every command line of the family (check/parse/find x grammar file/--grammar/malformed/missing x two constraint slots incl. syntax errors, unknown nonterminals, unknown predicates, -c or .isla file "
+        "x 11 inputs incl. empty file, newline only, JSON tree x file/--input-string; 51744 thorough, ~18000 quick): exit 0 iff member and all constraints hold, 1 otherwise, 65 + message for malformed "
+        "grammar/constraint, 2 for missing pieces, never an uncaught exception; `isla parse` output accepted by `isla check`.",
+   note="Trusted: contract transcription + checks/refsem.py. [decoder]. Outside: solve/fuzz/repair/mutate/create commands, argparse, file-system errors.",
+   design="§3 C19"),
 }
 NOT_APPLICABLE = {
  "C21": "needs end-to-end solve() on the shipped formalizations plus external validators (docutils, XML parser): the solver loop is a heap algorithm around Z3 calls that no engine here can encode, and the validators are not solver objects",
